@@ -34,6 +34,12 @@ fn encode_generate_code_request(parsed_files: &[slicec::slice_file::SliceFile]) 
     let mut source_files = Vec::new();
     let mut reference_files = Vec::new();
     for parsed_file in parsed_files {
+        // A file without a module declaration contains no definitions (otherwise it would've been rejected),
+        // and can't be represented in the request (a module declaration is required), so we skip it.
+        if parsed_file.module.is_none() {
+            continue;
+        }
+
         // Convert the Slice file from AST representation to Slice representation.
         let converted_file = definition_types::SliceFile::from(parsed_file);
         // Determine whether this is a source or reference file and place it accordingly.
